@@ -576,5 +576,5 @@ def run(tier):
                 n += 1 if r is not None else 0
     C.note("counts", "%d histories" % n)
     C.floor("C11/histories", n, 300, "editing histories interpreted")
-    C.assumptions += ["rowan 0.16 semantics as modelled (rules/treemodel.py)", "bounded: 9 start layouts, every index, one- and two-step histories; component strings concrete"]
-    return C.finish("Editing operations are interpreted on parser-built trees for 9 start layouts, every index and three ways of building operands; the printed field is re-read with the reference grammar and compared with the list-of-lists model; strict re-parse, separator hygiene, substvar and untouched-entry text preservation are checked.")
+    C.assumptions += ["rowan 0.16 semantics as modelled (rules/treemodel.py)", "bounded: 16 start layouts, every index, one- and two-step histories; component strings concrete"]
+    return C.finish("Editing operations are interpreted on parser-built trees for 16 start layouts, every index and three ways of building operands; the printed field is re-read with the reference grammar and compared with the list-of-lists model; strict re-parse, separator hygiene, substvar and untouched-entry text preservation are checked.")
